@@ -333,7 +333,7 @@ func (g *exprGen) pred(c ctxFlags, depth int) string {
 			return "number(.)" + cmps[r.Pick(len(cmps))] + fmt.Sprint(r.Between(0, 10))
 		}
 	}
-	switch k := r.Pick(22); {
+	switch k := r.Pick(27); {
 	case k < 3:
 		g.feat["positional"] = true
 		return fmt.Sprint(r.Between(1, 3))
@@ -399,6 +399,20 @@ func (g *exprGen) pred(c ctxFlags, depth int) string {
 	case k == 20:
 		g.feat["fn:string-length"] = true
 		return "string-length(" + g.valuePath(c, depth) + ")" + cmps[r.Pick(len(cmps))] + fmt.Sprint(r.Between(0, 3))
+	case k == 22:
+		g.feat["text-children"] = true
+		return r.PickStr("text()", "node()", "not(text())", "not(node())", "not(*)")
+	case k == 23:
+		g.feat["text-children"] = true
+		return "count(" + r.PickStr("node()", "text()") + ")" + cmps[r.Pick(len(cmps))] + fmt.Sprint(r.Between(0, 3))
+	case k == 24:
+		g.feat["text-children"] = true
+		g.feat["positional"] = true
+		return r.PickStr("text()", "node()") + "[" + r.PickStr("1", "2", "last()", "position()>1") + "]" +
+			r.PickStr("", "=''", "!=''", "="+g.lit())
+	case k == 25:
+		g.feat["text-children"] = true
+		return r.PickStr("text()=''", "text()!=''", "string-length(text())=0", "node()[1]=''", "text()[last()]="+g.lit())
 	default:
 		g.feat["number-compare"] = true
 		if r.Chance(0.1) {
@@ -669,7 +683,59 @@ func evalExpr(d *docCtx, c *exprCase) *exprOutcome {
 			return out
 		}
 	}
+	out.bad = apiConsistency(d, istart, c.Expr, out.IdrHits)
 	return out
+}
+
+func idrLabels(d *docCtx, ns []*idr.Node) []string {
+	out := make([]string, len(ns))
+	for i, n := range ns {
+		lbl, ok := d.ilabel[n]
+		if !ok {
+			lbl = fmt.Sprintf("?unlabelled %s %q", n.Type, n.Data)
+		}
+		out[i] = lbl
+	}
+	return out
+}
+
+// apiConsistency: the string API of idr/query.go answers one and the same question whichever
+// way it is asked: MatchAll through the process-wide compiled-expression cache (hits, already
+// obtained) = MatchAll with DisableXPathCache (the expression compiled in isolation), and
+// MatchSingle = the single node / ErrNoMatch / ErrMoreThanExpected by the number of hits.
+func apiConsistency(d *docCtx, istart *idr.Node, expr string, hits []hit) (bad string) {
+	e := guarded(func() {
+		ns, err := idr.MatchAll(istart, expr, idr.DisableXPathCache)
+		if err != nil {
+			bad = "MatchAll with DisableXPathCache fails where the cached call succeeds: " + err.Error()
+			return
+		}
+		ls := idrLabels(d, ns)
+		if len(ls) != len(hits) {
+			bad = fmt.Sprintf("MatchAll through the expression cache selects %d nodes, with DisableXPathCache %d", len(hits), len(ls))
+			return
+		}
+		for i := range ls {
+			if ls[i] != hits[i].Label {
+				bad = fmt.Sprintf("MatchAll through the expression cache and with DisableXPathCache differ at result %d", i)
+				return
+			}
+		}
+		for _, flags := range [][]uint{nil, {idr.DisableXPathCache}} {
+			n, err := idr.MatchSingle(istart, expr, flags...)
+			switch {
+			case len(hits) == 0 && err != idr.ErrNoMatch,
+				len(hits) > 1 && err != idr.ErrMoreThanExpected,
+				len(hits) == 1 && (err != nil || n == nil || d.ilabel[n] != hits[0].Label):
+				bad = fmt.Sprintf("MatchSingle (flags %v) is inconsistent with the %d node(s) MatchAll selects (err %v)", flags, len(hits), err)
+				return
+			}
+		}
+	})
+	if bad == "" && e != "" {
+		bad = "string API: " + e
+	}
+	return bad
 }
 
 func exprTouches(e string) bool {
